@@ -90,6 +90,9 @@ type MResp struct {
 	Text  string
 	Token string
 	Exit  int32
+	// Dur is the virtual execution duration the worker reported (passed on
+	// to the size-class learner on success).
+	Dur time.Duration
 	// Sched marks an error the scheduler produces itself (worker
 	// disappeared, no waiting clients, retry limit, queue removed). The
 	// property fixes its cause and status code, not its wording: Text
@@ -1063,7 +1066,7 @@ func (m *Model) complete(t *MTask, resp *MResp, byWorker bool) {
 	var expDur, timeout time.Duration
 	if resp.Code == "OK" && resp.Exit == 0 {
 		learner := t.Learner
-		m.proto(t.Chain, learner, "Succeeded", "")
+		m.proto(t.Chain, learner, "Succeeded", fmt.Sprintf("dur=%s", resp.Dur))
 		t.Learner = ""
 		if learner == "learner1" && t.Script.Background {
 			if pq.MaxBG == 0 {
@@ -1438,9 +1441,15 @@ func (m *Model) Propagate() {
 			} else if s.Cancelled {
 				m.Enter()
 				m.streamReturn(s, "Canceled")
+				m.Sit("wakeup:stream-by-cancellation")
 				changed = true
 			} else if genChanged {
 				m.Enter()
+				if s.Op.Task.Completed {
+					m.Sit("wakeup:stream-by-completion")
+				} else {
+					m.Sit("wakeup:stream-by-stage-change")
+				}
 				m.streamIterate(s)
 				changed = true
 			}
@@ -1450,6 +1459,13 @@ func (m *Model) Propagate() {
 				continue
 			}
 			for len(tc.Waits) > 0 && tc.Waits[0].t.Gen != tc.Waits[0].gen {
+				if len(tc.Waits) == 1 {
+					if tc.Waits[0].t.Completed {
+						m.Sit("wakeup:terminate-by-task-completion")
+					} else {
+						m.Sit("wakeup:terminate-by-task-leaving-its-worker")
+					}
+				}
 				tc.Waits = tc.Waits[1:]
 				changed = true
 			}
@@ -1458,6 +1474,7 @@ func (m *Model) Propagate() {
 				changed = true
 			} else if tc.Cancelled {
 				tc.State, tc.RetCode = "returned", "Canceled"
+				m.Sit("wakeup:terminate-by-cancellation")
 				changed = true
 			}
 		}
@@ -1490,6 +1507,12 @@ func (m *Model) FireTimers() int {
 					continue
 				}
 				m.Sit("synchronize:idle-timeout")
+				switch {
+				case sy.State == "undrain":
+					m.Sit("wakeup:drained-synchronize-by-idle-timeout")
+				default:
+					m.Sit("wakeup:parked-synchronize-by-idle-timeout")
+				}
 				if sy.State == "parked" {
 					if w.ParkedIn != nil {
 						w.dequeue()
@@ -1738,6 +1761,11 @@ func (m *Model) SyncCancelled(sy *MSync) {
 		w.dequeue()
 	}
 	m.Sit("synchronize:cancelled-while-blocked")
+	if sy.State == "undrain" {
+		m.Sit("wakeup:drained-synchronize-by-cancellation")
+	} else {
+		m.Sit("wakeup:parked-synchronize-by-cancellation")
+	}
 	m.syncReturnErr(sy, "Canceled")
 }
 
@@ -1840,6 +1868,8 @@ func (m *Model) RemoveDrain(prefix string, props [][2]string, sizeClass uint32, 
 			d := w.isDrained()
 			if !d {
 				m.Sit("drain:removed-while-worker-waiting")
+			} else {
+				m.Sit("wakeup:drained-synchronize-by-undrain-while-still-drained")
 			}
 			m.syncLoop(sy, d, false)
 		}
